@@ -23,7 +23,7 @@ from .. import disthist as dh
 from .. import tlc
 from ..core import scribble
 
-DTYPES = ['uint8', 'int16', 'int32', 'int64', 'uint16']
+DTYPES = ['uint8', 'int16', 'int32', 'int64', 'uint16', '>u2', '>i4', '<u4']          # the last three: explicit byte orders (values are what counts, not their storage)
 
 
 def stops_model(chk):
